@@ -87,7 +87,7 @@ class Structure:
 
     def get_pin_basenames(self) -> list[str]:
         """Return the set of the basename of the pins"""
-        return list(set([pin.basename for pin in self.pin_list]))
+        return list(set([pin[1].basename for pin in self.pin_list]))
 
     def get_pin_modenames(self, target) -> List[str]:
         """Return list of mode names given a pin basename"""
